@@ -12,7 +12,8 @@ class TarSuite(Suite):
     rule = ("views in memory and on disk (empty files, multi-chunk files, hard-link groups, symlinks, fifos, devices, names > 100 bytes, non-ASCII / "
             "non-UTF-8 names, xattrs, suid/sgid/sticky) x include/exclude filters through WriteTar; the archive is read back with archive/tar and "
             "compared member by member (name, type, size, mode, owner, mtime in seconds, link name, device numbers, SCHILY.xattr records, payload hash) "
-            "with the Lean member model; non-trivial = >= 3 entries, distinct")
+            "with the Lean member model; 60% of the archives are also extracted by GNU tar (as root, -p --same-owner --xattrs) and the resulting tree is judged "
+            "by the C01 tree specification against the view (mtimes to the second); non-trivial = >= 3 entries, distinct")
 
     def gen(self, rng, tier):
         from . import filt
@@ -27,7 +28,7 @@ class TarSuite(Suite):
                 tree.append({"p": hx(long), "t": "dir", "uid": 0, "gid": 0, "mt": gen.MTIMES[3], "mode": 0o755})
                 tree.append({"p": hx(long + b"/" + long[:120]), "t": "file", "size": 5, "uid": 1000, "gid": 1000, "mt": gen.MTIMES[3], "mode": 0o644})
                 tree.sort(key=lambda e: gen.pathkey(bytes.fromhex(e["p"])))
-            op = {"op": "tar", "src": {"kind": "mem" if rng.random() < 0.6 else "disk", "tree": tree}}
+            op = {"op": "tar", "src": {"kind": "mem" if rng.random() < 0.6 else "disk", "tree": tree}, "extract": rng.random() < 0.6}
             paths = [bytes.fromhex(e["p"]) for e in tree]
             if rng.random() < 0.25 and paths and all(filt.fragment_ok([p]) for p in paths):
                 sf = {}
@@ -44,6 +45,8 @@ class TarSuite(Suite):
         for k, o in enumerate(ops):
             i = impl[k] if impl else {}
             m = {"op": "tar", "view": i.get("view", []) if isinstance(i, dict) else [], "viewkind": o["src"]["kind"]}
+            if isinstance(i, dict) and "extracted" in i:
+                m["extracted"] = i["extracted"]
             if "sfilter" in o:
                 m["sfilter"] = o["sfilter"]
             out.append(m)
@@ -77,6 +80,12 @@ class TarSuite(Suite):
             if m["tf"] in ("symlink", "link") and (m["paylen"] or m["size"]):
                 ok = False
                 notes.append("link member with payload")
+        if impl.get("xerr"):
+            ok = False
+            notes.append("an independent extractor (GNU tar) refuses the archive: %s" % impl["xerr"][:300])
+        if model.get("extract") is False:
+            ok = False
+            notes.append("extracting the archive does not reproduce the view: %s" % model.get("extract_why"))
         return Verdict(ok, ok, "; ".join(notes)[:900])
 
     matchers = {
